@@ -172,6 +172,16 @@ def runSchedAll (k : Kind) (B : Nat) : Bytes → List Bytes → Prog ε α → S
     | .susp p' s' => .susp p' s' :: runSchedAll k B (a ++ c) cs p' s'
     | o => [o]
 
+/-- a comparable summary of an outcome: how it ended, `tell()` then, `tell()` after each object yielded -/
+inductive Ending
+  | done | err (e : SErr) | susp
+deriving DecidableEq, Repr
+
+def Out.summary : Out (TLV × Nat) α → Ending × Nat × List Nat
+  | .done _ s => (.done, s.pos - s.base, (s.out.map (·.2)).reverse)
+  | .err e s => (.err e, s.pos - s.base, (s.out.map (·.2)).reverse)
+  | .susp _ s => (.susp, s.pos - s.base, (s.out.map (·.2)).reverse)
+
 /-- the absolute position one past the last octet the pending primitive needs -/
 def Prog.needs : Prog ε α → St ε → Nat
   | .read n _, s => s.pos + n
